@@ -25,8 +25,10 @@ MODELLED = {
                         "mpc_mpf_div", "complex_int_pow", "mpc_pow_int", "mpc_sqrt", "mpc_floor", "mpc_ceil", "mpc_nint", "mpc_frac"],
     "libmp/libmpi.py": ["mpi_eq", "mpi_lt", "mpi_le", "mpi_gt", "mpi_ge", "mpi_add", "mpi_sub", "mpi_delta", "mpi_mid", "mpi_pos", "mpi_neg", "mpi_shift",
                         "mpi_abs", "mpi_mul", "mpi_square", "mpi_div", "mpi_sqrt", "mpi_pow_int", "mpci_add", "mpci_sub", "mpci_neg",
-                        "mpci_pos", "mpci_mul", "mpci_square", "mpci_div", "mpci_pow_int"],
-    "libmp/libintmath.py": ["ifac", "python_bitcount", "python_trailing", "isqrt_small_python", "isqrt_fast_python", "sqrtrem_python"],
+                        "mpci_pos", "mpci_mul", "mpci_square", "mpci_div", "mpci_pow_int",
+                        "_mpi_outward", "mpi_exp", "mpi_log", "mpi_pow", "cos_sin_quadrant", "mpi_cos_sin", "mpi_tan", "mpi_cot",
+                        "mpi_cosh_sinh", "mpci_exp", "mpci_cos", "mpci_sin", "mpci_abs"],
+    "libmp/libintmath.py": ["ifac", "python_bitcount", "python_trailing", "isqrt_small_python", "isqrt_fast_python", "sqrtrem_python", "giant_steps"],
 }
 
 
